@@ -11,6 +11,7 @@ here as arithmetic on integers (no library code):
 from harness.runner import Result
 
 ID = "C04"
+OPTIMIZED_PASS = True      # the whole search runs once more under python -OO (harness/runner.py)
 LEVEL = "exploration"
 RULE = ("enumeration: (address/instance object, frame value) pairs for writes - non-trivial when the write "
         "changes at least one bit of the frame (distinct by construction); every frame value for the decode "
